@@ -43,6 +43,7 @@ def settle_check(case: dict, env: Env, out: list, site: str, what: str) -> None:
     try:
         env.clock.t += g(spec.get("recovery", 64 * 30))
         real = env.breaker._real
+        _ = real.state  # a dashboard polling the breaker: reading the state must not take the probe slot
         d = real.allow()
         state = d.state.value
         admitted = d.allowed
